@@ -24,6 +24,7 @@ def registry():
         "C19": checks_registry.check_C19,
         "C15": checks_value.check_C15,
         "C07": checks_stream.check_C07,
+        "C04": checks_codegen.check_C04,
         "C16": checks_codegen.check_C16,
     }
     return reg
